@@ -98,7 +98,7 @@ class UnphaseFiles(BCheck):
             mode = i % 4
             sc = V.generate(
                 r, phasing=[None, "PS", "HP", "mixed"][mode],
-                gt_kinds=("homref", "het", "het", "het_rev", "homalt", "missing", "half", "dot", "haploid"),
+                gt_kinds=("homref", "het", "het", "het_rev", "homalt", "missing", "half", "half_phased", "dot", "haploid"),
                 ploidies=(2, 2, 3, 1, 4) if i % 3 == 0 else (2,), mixed_ploidy=(i % 3 == 0),
                 no_gt_records=0.15 if i % 5 == 0 else 0.0)
             yield dict(vcf=V.render(sc))
@@ -130,4 +130,34 @@ class UnphaseFiles(BCheck):
         return None
 
 
-B_CHECKS = [UnphaseFiles()]
+class UnphaseAfterPhase(BCheck):
+    name = "C13.unphase-after-phase"
+    contract = "unphase(phase(x)) has the same records as unphase(x), for x phased by `whatshap phase` with either tag"
+    rule = ("seeded scenarios (1-2 samples, het genotypes written 0/1 or 1/0, hom/missing calls, 1-2 phased VCFs as phase inputs), tag PS|HP; "
+            "non-trivial = the phasing run phased at least one call")
+    budget_s = {"quick": 60, "thorough": 600}
+    chunk = 10
+
+    def inputs(self, tier, rng):
+        from scenario import phasing as PH
+        for i in range(600 if tier == "quick" else 10000):
+            r = random.Random(rng.getrandbits(64))
+            g = PH.generate(r, k_files=(1, 2), main_kwargs=dict(n_samples=(1, 2), n_records=(4, 8)))
+            yield dict(main_vcf=g["main_vcf"], phase_vcfs=g["phase_vcfs"], tag="PS" if i % 2 == 0 else "HP")
+
+    def check(self, inp):
+        from runtime.phase_driver import run_phase
+        res = run_phase(inp["main_vcf"], inp["phase_vcfs"], tag=inp["tag"])
+        if res["error"]:
+            return dict(expected="phasing run succeeds", observed=res["error"])
+        a = run_unphase_text(res["out"])
+        b = run_unphase_text(inp["main_vcf"])
+        ra = [l for l in a.split("\n") if l and not l.startswith("#")]
+        rb = [l for l in b.split("\n") if l and not l.startswith("#")]
+        if ra != rb:
+            d = [(x, y) for x, y in zip(ra, rb) if x != y][:2]
+            return dict(expected="unphase(phase(x)) records == unphase(x) records", observed=str(d) if d else "%d vs %d records" % (len(ra), len(rb)))
+        return None
+
+
+B_CHECKS = [UnphaseFiles(), UnphaseAfterPhase()]
